@@ -124,6 +124,42 @@ theorem C14_desired_included_iff_required_variant_accepted (ti : TyInfo) (funcs 
     rw [initPosOf_set funcs d c hd, heq] at this
     exact ⟨ch', this⟩
 
+/-- ... and then the two accepted chains mark every provider alike ("the two chains then behave identically": the same
+    providers are compiled, with the same slots -- the refinement theorem does the rest) -/
+theorem C14_required_variant_is_marked_alike (ti : TyInfo) (funcs : List CP) (cannot0 : List Nat) (ch ch' : Chain)
+    (d : Nat) (c : CP) (hd : funcs[d]? = some c) (hreq : c.required = false)
+    (hwant : c.desired = true ∨ autoDesiredC c = true) (hshun : c.shun = false) (hcl : c.cluster = 0)
+    (h : computeInclusion ti funcs cannot0 = .ok ch)
+    (h' : computeInclusion ti (funcs.set d (makeRequired c)) cannot0 = .ok ch') :
+    ∀ j, (ch'.get j).inc = (ch.get j).inc ∧ (ch'.get j).cannot = (ch.get j).cannot := by
+  have hdl : d < funcs.length := by
+    rcases Nat.lt_or_ge d funcs.length with h1 | h1
+    · exact h1
+    · rw [List.getElem?_eq_none h1] at hd; cases hd
+  have hrun := (computeInclusion_eq_includeRun ti funcs cannot0 ch).mp h
+  have hrec := initState_rec funcs cannot0 d c hd
+  have hdd : DesD d (initState funcs cannot0) := by
+    refine ⟨by rw [initState_length]; exact hdl, by rw [hrec]; exact hreq, ?_, by rw [hrec]; exact hshun, by rw [hrec]; exact hcl,
+      by rw [hrec]⟩
+    rw [hrec]
+    rcases hwant with h1 | h1
+    · exact Or.inl h1
+    · right
+      unfold autoDesiredC at h1
+      exact ⟨h1, by simp [hcl]⟩
+  have hip : ∀ p, initPosOf funcs = some p → p < (initState funcs cannot0).length := fun p hp => by
+    rw [initState_length]; exact initPos_lt funcs p hp
+  have hrel := initState_set funcs cannot0 d c hd hcl
+  have heq := includeRun_RelI ti (initPosOf funcs) hrel (by rw [upd_length, initState_length]; exact hdl)
+  have hrun' := (computeInclusion_eq_includeRun ti _ cannot0 ch').mp h'
+  rw [initPosOf_set funcs d c hd, heq] at hrun'
+  rcases C14_desired_run_vs_required_run ti (initPosOf funcs) (initState funcs cannot0) ch d hdd
+      (initState_clusterMembers funcs cannot0) hip hrun with ⟨_, y', hy', hflags⟩ | ⟨e, he⟩
+  · rw [hrun'] at hy'
+    have : ch' = y' := by injection hy'
+    rw [this]; exact hflags
+  · rw [hrun'] at he; cases he
+
 /-- premises are satisfiable, both ways -/
 example : (match computeInclusion stdTyInfo c14ValidateExample [],
       computeInclusion stdTyInfo (c14ValidateExample.set 0 (makeRequired c14ValidateExample[0]!)) [],
